@@ -9,3 +9,5 @@ import CruxVerif.Props.C02
 #print axioms Props.C02.response_reaches_exactly_the_asker
 #print axioms Props.C02.stream_item_reaches_exactly_the_consumer
 #print axioms Props.C02.stream_items_consumed_in_order
+#print axioms Props.C02.poll_keeps_channels_unshared
+#print axioms Props.C02.poll_never_adopts_foreign_channel
